@@ -10,7 +10,7 @@
 From Coq Require Import List Bool ZArith Lia.
 Import ListNotations.
 From Rosed Require Import Base.Res Base.ListX Base.Str Base.Utf8 Gem.Segment Gem.GString Model.Tb Model.Manip Model.Table Model.Options Model.Editor Model.Ops
-     Proofs.SeamP Proofs.C15P Proofs.C15Q gen.Consts Inst.GoConstsLayout.
+     Proofs.SeamP Proofs.C15P Proofs.C15Q.
 Open Scope Z_scope.
 
 Theorem C15_term_column : forall (C : Classifier) (K : ClassifierOk) term longest,
@@ -55,10 +55,3 @@ Print Assumptions C15_table.
 Theorem C15_longest : forall (C : Classifier) defs d, In d defs -> glen (decode (fst d)) <= fold_left lg_step defs (-1).
 Proof. intros C defs. exact (proj2 (longest_ge defs (-1))). Qed.
 Print Assumptions C15_longest.
-
-(* the layout literals of the model ("- ", the two-space term indent, the two-space column gap,
-   the borderless table padding) are the constants of operations.go / table.go in the source now *)
-Theorem C15_layout_constants_are_the_source :
-  go_definitionStart = [HYPHEN; SP] /\ go_termLeftTabWidth = 2 /\ go_minBetween = 2.
-Proof. exact go_layout_consts_eq. Qed.
-Print Assumptions C15_layout_constants_are_the_source.
